@@ -1,21 +1,77 @@
+//! One driver module per property; each exposes exec (run one operation record through the real code)
+//! and gen (seeded random operation records).
 use anyhow::{bail, Result};
 use serde_json::Value;
 
+pub mod c01;
+pub mod c02;
 pub mod c03;
 pub mod c04;
+pub mod c05;
+pub mod c06;
+pub mod c07;
+pub mod c08;
+pub mod c09;
+pub mod c10;
+pub mod c11;
+pub mod c12;
+pub mod c13;
+pub mod c14;
+pub mod c15;
+pub mod c16;
+pub mod c17;
+pub mod c18;
+pub mod c19;
+pub mod c20;
 
 pub fn exec(prop: &str, v: &Value) -> Result<Value> {
 	match prop {
+		"C01" => c01::exec(v),
+		"C02" => c02::exec(v),
 		"C03" => c03::exec(v),
 		"C04" => c04::exec(v),
+		"C05" => c05::exec(v),
+		"C06" => c06::exec(v),
+		"C07" => c07::exec(v),
+		"C08" => c08::exec(v),
+		"C09" => c09::exec(v),
+		"C10" => c10::exec(v),
+		"C11" => c11::exec(v),
+		"C12" => c12::exec(v),
+		"C13" => c13::exec(v),
+		"C14" => c14::exec(v),
+		"C15" => c15::exec(v),
+		"C16" => c16::exec(v),
+		"C17" => c17::exec(v),
+		"C18" => c18::exec(v),
+		"C19" => c19::exec(v),
+		"C20" => c20::exec(v),
 		_ => bail!("unknown property {prop}"),
 	}
 }
 
 pub fn gen(prop: &str, seed: u64, n: usize) -> Result<Vec<Value>> {
 	match prop {
+		"C01" => c01::gen(seed, n),
+		"C02" => c02::gen(seed, n),
 		"C03" => c03::gen(seed, n),
 		"C04" => c04::gen(seed, n),
+		"C05" => c05::gen(seed, n),
+		"C06" => c06::gen(seed, n),
+		"C07" => c07::gen(seed, n),
+		"C08" => c08::gen(seed, n),
+		"C09" => c09::gen(seed, n),
+		"C10" => c10::gen(seed, n),
+		"C11" => c11::gen(seed, n),
+		"C12" => c12::gen(seed, n),
+		"C13" => c13::gen(seed, n),
+		"C14" => c14::gen(seed, n),
+		"C15" => c15::gen(seed, n),
+		"C16" => c16::gen(seed, n),
+		"C17" => c17::gen(seed, n),
+		"C18" => c18::gen(seed, n),
+		"C19" => c19::gen(seed, n),
+		"C20" => c20::gen(seed, n),
 		_ => bail!("unknown property {prop}"),
 	}
 }
